@@ -558,8 +558,9 @@ impl<F: Field> Assignment<F> for MockProver<F> {
             return Ok(());
         }
 
+        // `from_row == usable_rows.end`: the column is full already, nothing is left to fill.
         assert!(
-            self.usable_rows.contains(&from_row),
+            from_row <= self.usable_rows.end,
             "row={}, usable_rows={:?}, k={}",
             from_row,
             self.usable_rows,
